@@ -218,7 +218,7 @@ def shard_fn(shard, nshards, seed, tier, exe, nhist):
         cid = "%d.huge" % shard
         cases.append((cid, cmds))
         hugemeta[cid] = exp
-    results, crashes = core.run_script(exe, cases, tag="c07")
+    results, crashes = core.run_script(exe, cases, tag="c07", env=core.ambient_env(sh, shard))
     cmdmap = dict(cases)
     for cr in crashes:
         kind, frame = cr.summary()
